@@ -154,7 +154,11 @@ namespace
       // slip filter on the whole boundary: every rank assembles the normals of its own boundary facets, the gate adds them
       // up and they are normalised - must give the filter of the undecomposed mesh on every rank that holds the DOF
       LAFEM::SlipFilter<double, Index, 2> slip;
-      Control::Asm::asm_slip_filter(slip, the_domain_level, the_domain_level.space, String("*"));
+      // the parts of the boundary only (named bnd:* in all mesh files used here): interior mesh parts have no outer normal
+      // - which of the two adjacent cells defines it depends on the patch -, a slip filter on them is not a meaningful input
+      String slip_parts;
+      for(const auto& n : the_domain_level.get_mesh_node()->get_mesh_part_names(true)) if(n.compare(0, 4, "bnd:") == 0) slip_parts += (slip_parts.empty() ? "" : " ") + n;
+      Control::Asm::asm_slip_filter(slip, the_domain_level, the_domain_level.space, slip_parts);
       Control::Asm::sync_slip_filter(the_system_level.gate_sys, slip);
       const auto& fv = slip.get_filter_vector();
       for(Index k = 0; k < fv.used_elements(); ++k)
@@ -364,6 +368,15 @@ std::string harness_run()
   sim::clock_reset();
   wc::WorldCfg w = sim::thorough() ? wc::draw_cfg(4, 2, false) : wc::draw_cfg(3, 2, false);
   if(w.mesh == 1 || w.mesh == 4) { w.mesh = 0; w.mesh_file = "unit-square-quad.xml"; }   // quadrilateral meshes only in this harness
+  // every fourth run on a mesh with boundary facets of different sizes along a curved boundary (flow around a cylinder): at a
+  // slip DOF shared by two patches the two facet normals then differ in direction *and* length - on the unit square they are
+  // parallel, on a uniformly meshed circle equally long, and a weighting mistake of the synchronisation stays invisible
+  if(sim::cfg_int("nonuniform_boundary", 0, 3) == 0)
+  {
+    static const char* nu[3] = {"z-pipe-1-quad.xml", "nozzle-1-quad.xml", "flowbench_c2d_01_quad_32.xml"};
+    w.mesh = 9; w.mesh_file = nu[sim::cfg_int("nonuniform_mesh", 0, 2)];
+    sim::probe("mesh_with_nonuniform_curved_boundary");
+  }
   if(w.parti == 2) w.parti = 1;
   CNT = Counters();
   Shared sh; SH = &sh;
